@@ -123,7 +123,7 @@ class Ctx:
             self.violation(sig, what, rep)
 
     # -- parallel map ---------------------------------------------------------
-    def pmap(self, fn, items, chunksize: int = 1):
+    def pmap(self, fn, items, chunksize: int = 1, fresh: bool = False):
         """Unordered parallel map over forked workers.  ``fn`` must be a module
         level function; whatever state the parent has set up before the call
         (scripted draw, replaced locks) is inherited through fork."""
@@ -131,6 +131,9 @@ class Ctx:
         if self.nproc <= 1 or len(items) <= 1:
             for it in items:
                 yield fn(it)
+            return
+        if fresh:
+            yield from fork_map(fn, items, self.nproc)
             return
         import multiprocessing as mp
         mpctx = mp.get_context('fork')
@@ -140,6 +143,54 @@ class Ctx:
 
     def elapsed(self):
         return time.time() - self.t0
+
+
+def fork_map(fn, items, nproc):
+    """Unordered map with ONE forked child per item, forked from this (single-threaded) process, so that every
+    item starts from the parent's exact state (same heap, same id()s, cold beartype caches).  Results come back
+    pickled through a pipe.  A child that dies without answering is a hard harness error."""
+    import pickle
+    import select
+    items = list(items)
+    pending = list(reversed(list(enumerate(items))))
+    running = {}      # read fd -> (pid, index, buffer)
+    while pending or running:
+        while pending and len(running) < nproc:
+            idx, it = pending.pop()
+            r, w = os.pipe()
+            pid = os.fork()
+            if pid == 0:
+                code = 0
+                try:
+                    os.close(r)
+                    try:
+                        payload = pickle.dumps(('ok', fn(it)))
+                    except BaseException:
+                        payload = pickle.dumps(('err', traceback.format_exc()))
+                    with os.fdopen(w, 'wb') as f:
+                        f.write(payload)
+                except BaseException:
+                    code = 3
+                finally:
+                    os._exit(code)
+            os.close(w)
+            running[r] = (pid, idx, bytearray())
+        ready, _, _ = select.select(list(running), [], [])
+        for r in ready:
+            pid, idx, buf = running[r]
+            chunk = os.read(r, 1 << 20)
+            if chunk:
+                buf.extend(chunk)
+                continue
+            os.close(r)
+            del running[r]
+            os.waitpid(pid, 0)
+            if not buf:
+                raise RuntimeError(f'forked worker for item {idx} died without a result')
+            kind, val = pickle.loads(bytes(buf))
+            if kind == 'err':
+                raise RuntimeError(f'forked worker for item {idx} raised:\n{val}')
+            yield val
 
 
 # ---------------------------------------------------------------------------
